@@ -316,6 +316,20 @@ def c06_key(aid, events, outs):
     return "c06:%s:%s" % (aid, o.get("edit", "?"))
 
 
+C06_INSTANCES_SITES = ("both-versions-valid", "verdict-without-panic", "breaking-change-rejected", "partial-change-accepted", "partial-change-warned", "every-partial-change-warned",
+                       "compatible-change-accepted", "compatible-change-silent")
+C06_INSTANCES_ASSUME = ["oracle from docs/cpp/evolution.md: the class of a record edit (optional field added / fields reordered = compatible; required field added or removed, number -> number, "
+                        "field made optional = partially compatible, 'yardl will emit a warning for each of these'; field type string -> datetime, scalar -> vector = breaking) does not depend on "
+                        "how the protocol reaches the record; both versions use the same step types, only record definitions differ; records unreached by every step are not edited",
+                        "no maps / arrays (known finding c06:change-to-record-used-as-map-value-or-array-element-rejected); only the definitions the steps need are declared"]
+C06_PREDECESSORS_SITES = ("verdict-without-panic", "breaking-change-rejected", "partial-change-accepted", "partial-change-warned", "compatible-change-accepted", "compatible-change-silent",
+                          "fails-iff-some-predecessor-alone-fails", "error-is-the-first-failing-predecessors-own", "warnings-of-predecessor-equal-those-of-validating-it-alone",
+                          "warnings-after-first-failure-are-absent-or-its-own", "every-warning-is-labelled-with-its-predecessor", "alone-every-warning-is-labelled")
+C06_PREDECESSORS_ASSUME = ["every run (all predecessors together, each predecessor alone) uses freshly built and validated models, because ValidateEvolution renames the predecessors' definitions "
+                           "and annotates the latest model", "ValidateEvolution stops at the first failing predecessor: predecessors listed after it need not be diagnosed (absent or their own warnings)",
+                           "diagnostics are attributed by their '[label] ' prefix; the class of each alone verdict is the documented one (docs/cpp/evolution.md), which keeps the relational obligation non-vacuous"]
+
+
 def c07_key(aid, events, outs):
     m = {e["name"]: e["value"] for e in events}
     if any(k.endswith("from-end") for k in m):
@@ -740,6 +754,18 @@ PARTS = {
                                desc="real dsl.ValidateEvolution + one real generator writing its files (args: versions, generators among cpp/binary.WriteBinary, cpp/types.WriteTypes, "
                                     "cpp/protocols.WriteProtocols, cpp/ndjson.WriteNdJson, python.Generate, range-index bounds, change kinds) run once in insertion order and once with one "
                                     "(symbolically chosen) map range of the evolution pass or the generator iterating in a different order: every generated file is byte-identical")),
+        (G, "gosym_part", dict(name="c12_evolution_diagnostics_map_order", entry="internal/zzverif.C12EvolutionDiagnostics", args_quick=(6, 1, 1, 6), args_thorough=(6, 3, 2, 6),
+                               required_sites=("both-versions-valid", "incompatible-evolution-is-rejected", "every-map-range-covered",
+                                               "evolution-diagnostics-independent-of-map-iteration-order"),
+                               assumptions=["map iteration order is a path decision (verifSetMapOrder(-2-i)): one range of ValidateEvolution at a time iterates in every other order (all 6 orders of a "
+                                            "3-entry map; identity / reversal / rotation for 4 entries); every range executed is covered (every-map-range-covered); "
+                                            "natively Go randomises the order, so a reported dependence is confirmed by repeating the run up to 64 times",
+                                            "model: one predecessor; protocols Acquire / Calibrate / Monitor play, in a symbolic assignment, the roles 'steps reordered and/or removed (+ a step type change)', "
+                                            "'step-level errors (scalar -> vector, bool -> datetime, non-empty step added) + a warning', 'step-level warnings only'; a shared record changes partially "
+                                            "compatibly (definition-level warning); thorough: remove-only / reorder-only structural changes and a fourth, removed protocol"],
+                               desc="real dsl.ValidateEvolution on a package whose predecessor differs in three protocols (args: role assignments, structural change kinds, removed-protocol variant, "
+                                    "range-index bound), once with every map range in insertion order and once with one symbolically chosen map range in another order: the rendered error text, "
+                                    "the warning list and the error verdict are identical")),
     ],
     "C06": [
         (G, "gosym_part", dict(name="c06_env_edit_classes", entry="internal/zzverif.C06Env", key_fn=c06_key,
@@ -787,6 +813,30 @@ PARTS = {
                                assumptions=C06_ASSUME,
                                desc="compareTypes on two independent symbolic types: total in both directions; nil => identical wire plan; "
                                     "nil-ness and error-ness symmetric; accepted-but-changed => non-empty warning")),
+        (G, "gosym_part", dict(name="c06_instances", entry="internal/zzverif.C06Instances", args_quick=(2, 8, 3, 2, 0), args_thorough=(2, 10, 6, 3, 3), key_fn=c06_key,
+                               extra_thorough=("-max-paths", "100000"),
+                               required_sites=C06_INSTANCES_SITES, assumptions=C06_INSTANCES_ASSUME,
+                               desc="real Validate + ValidateEvolution on protocols whose steps reach records Alpha / Beta through symbolic shapes (direct, Box<R>, closed alias of Box<R>, "
+                                    "Outer<R> = generic nested in a generic, Box<HoldR> = field of a record argument, generic alias, stream of Box<R>, Duo<Other, R> = two instantiations "
+                                    "in one record; thorough: Box<R>?, Box<Box<R>>), args = steps, shapes, edit kinds of the last step's record, edit kinds of the other record, mode: "
+                                    "quick = a step reaching Alpha and a step reaching Beta in both orders, Beta edited (breaking / partial / compatible), Alpha unchanged or compatibly changed; "
+                                    "thorough = symbolic targets per step (the same instantiation twice included), 6 x 3 edit kinds, an extra changed primitive step before / after: "
+                                    "rejected iff a reached record has a breaking edit, otherwise accepted with a warning naming the field of every partially compatible edit")),
+        (G, "gosym_part", dict(name="c06_instances_3steps", entry="internal/zzverif.C06Instances", args_quick=(3, 6, 3, 2, 0), args_thorough=(3, 6, 3, 2, 0), key_fn=c06_key, tiers=("thorough",),
+                               required_sites=C06_INSTANCES_SITES, assumptions=C06_INSTANCES_ASSUME,
+                               desc="same with three steps: two steps reaching Alpha and one reaching the edited Beta at a symbolic position (first / middle / last), 6 shapes per step")),
+        (G, "gosym_part", dict(name="c06_predecessors", entry="internal/zzverif.C06Predecessors", args_quick=(2, 2, 4), args_thorough=(2, 2, 6), key_fn=c06_key,
+                               required_sites=C06_PREDECESSORS_SITES, assumptions=C06_PREDECESSORS_ASSUME,
+                               desc="real Validate + ValidateEvolution(latest, [v0, v1]) where every (predecessor, definition) pair has a symbolic kind of change (identical / partially compatible / "
+                                    "breaking / compatible; thorough: + required field added, vector -> scalar) in two records (stream item, plain step): the diagnostics labelled [vj] equal those of "
+                                    "ValidateEvolution(latest, [vj]) on fresh models for every predecessor up to the first failing one, the call fails iff some predecessor alone fails, with that "
+                                    "predecessor's own error; every assignment of kinds is explored, hence both listing orders of any two predecessors")),
+        (G, "gosym_part", dict(name="c06_predecessors_3", entry="internal/zzverif.C06Predecessors", args_quick=(3, 2, 4), args_thorough=(3, 2, 4), key_fn=c06_key, tiers=("thorough",),
+                               required_sites=C06_PREDECESSORS_SITES, assumptions=C06_PREDECESSORS_ASSUME,
+                               desc="same with three predecessors (4 kinds x 2 records x 3 predecessors)")),
+        (G, "gosym_part", dict(name="c06_predecessors_3defs", entry="internal/zzverif.C06Predecessors", args_quick=(2, 3, 4), args_thorough=(2, 3, 4), key_fn=c06_key, tiers=("thorough",),
+                               required_sites=C06_PREDECESSORS_SITES, assumptions=C06_PREDECESSORS_ASSUME,
+                               desc="same with two predecessors and three definitions (two records and an alias of a primitive used as a step type)")),
     ],
     "C20": [
         (G, "gosym_part", dict(name="c20_sequential", entry="internal/cmd.VerifC20", args_quick=(2, 0, 0), args_thorough=(3, 0, 0),
@@ -962,12 +1012,16 @@ CLAIMS_ADDENDA = {
            "several stream steps; (gosym) the emitted C++ flags/enum NDJSON converters denote the documented mapping and round-trip for a symbolic definition and a symbolic 64-bit value.",
     "C03": "Added: the NDJSON converter and protocol-line parts (binary <-> NDJSON copies) are part of this check as well.",
     "C04": "Added: the model has a fixed array with unnamed dimensions, a dynamic array, and a record of an imported namespace sharing its simple name with a local one; every backend "
-           "(C++, Python, MATLAB) embeds exactly the schema text once and readers refer to the writer's.",
+           "(C++, Python, MATLAB) embeds exactly the schema text once and readers refer to the writer's; the emitted C++ schema tables (schema_, previous_schemas_, SchemaFromVersion) "
+           "are evaluated with C++ static-initialisation-order semantics: the header written for every Version carries that version's own schema text.",
     "C05": "Added: nested conversions (optional / vector / batched stream wrappers, depth <= 2) for all integer pairs with a symbolic value; Inverse() is direction-swapping at every level and an "
            "involution; per-version switches of every protocol method route each label (symbolic label order) to that version's wire format; three emitter defects that make the generated C++ "
-           "ill-formed are recorded known findings.",
+           "ill-formed are recorded known findings; SchemaFromVersion / VersionFromSchema / enum Version / previous_schemas_ of the emitted C++ are mutually consistent for symbolic "
+           "version labels (a writer targeting version L writes L's schema, a stream of version L selects L's conversions).",
     "C06": "Added: the verdict class is independent of the reference shape (direct / closed alias / alias of alias / generic alias on either side; defect repaired by d518244), of the position of the "
-           "matching union case, and (known finding) of flat vs nested spelling of stream / vector item types.",
+           "matching union case, and (known finding) of flat vs nested spelling of stream / vector item types; of how the protocol reaches an edited record (directly, through the first or a later "
+           "instantiation of the same generic, an alias of an instantiation, a generic nested in a generic, a field of a record argument, with other changed steps around); with several predecessors "
+           "the diagnostics labelled with one predecessor equal those of validating against it alone.",
     "C07": "Added: abandoned (closed) and failing stream iterables keep the step open in the generated Python reader.",
     "C08": "Added: every relative import of every generated Python module resolves to a file written in the same run for all option x import-shape combinations; dtype registrations are "
            "dependencies-first; GetAllChildReferences on every reference DAG (<= 4/5 namespaces) is duplicate-free and dependencies-first.",
@@ -977,12 +1031,14 @@ CLAIMS_ADDENDA = {
            "on EVERY token sequence of length 4 (6) over all 19 token kinds: terminates, no panic, exactly one of (expression, error) (infinite loop on '<atom> as <atom> [' repaired by d026dd8).",
     "C11": "Added: 2-3 previous versions with symbolic compatibility per version and symbolic, possibly equal labels, with the real Validate / ValidateEvolution.",
     "C12": "Added: every file written by the C++ (and, thorough, Python) generators for a 2 (3)-version model is byte-identical when any single map range iterates in a different order "
-           "(map iteration order is a path decision).",
+           "(map iteration order is a path decision); the evolution diagnostics (errors, warnings, verdict) of a package whose predecessor differs in three protocols are identical "
+           "when any single map range of ValidateEvolution iterates in another order.",
     "C13": "Added: local generic types used only as type arguments of imported generics, in all 120 (720) definition orders; normalizeComment equals the attached trailing comment run for every "
            "head comment of <= 3 (4) lines.",
     "C14": "Added: the NDJSON tagged/untagged decision of the Python generator (3-case unions); MATLAB and Python union classes number their cases consistently with what the binary "
            "UnionSerializer writes.",
-    "C15": "Added: wire-different models have different schema texts (the C04 'determines' part) and every backend embeds exactly that text.",
+    "C15": "Added: wire-different models have different schema texts (the C04 'determines' part) and every backend embeds exactly that text; the emitted C++ VersionFromSchema "
+           "accepts exactly the schema texts of the listed versions and refuses every other text, incl. the empty one.",
     "C16": "Added: bulk reads (read_view / read_bytearray, all three code paths incl. count larger than the buffer) return only bytes the stream holds.",
     "C17": "Added: returned items (arrays, strings, containers of arrays) share no memory with the reader buffer and are unchanged by later reads / refills; the emitted C++ stream writer's block structure.",
     "C18": "Added: termination as an obligation on every graph; every import-list order; the namespace graph built by parsePackageNamespaces mirrors the import graph.",
